@@ -192,6 +192,9 @@ func (d *DeviceRemote) UseCases() []model.UseCaseInformationDataType {
 
 func (d *DeviceRemote) UpdateDevice(description *model.NetworkManagementDeviceDescriptionDataType) {
 	if description != nil {
+		d.muxInfo.Lock()
+		defer d.muxInfo.Unlock()
+
 		if description.DeviceAddress != nil && description.DeviceAddress.Device != nil {
 			d.address = description.DeviceAddress.Device
 		}
